@@ -363,6 +363,45 @@ func runC01(w *World, r *Report) {
 		fundsCall = c
 		fundsE = append(fundsE, passErrNil(c)...)
 	}
+	// … and that function answers from the trusted-nodes store itself, on every call (a remembered answer
+	// outlives RemoveTrustedNode)
+	if tf := w.fx(r, "accountant", "AccountingBook", "checkIsTrustedNode"); tf != nil {
+		var views []ssa.CallInstruction
+		for _, c := range tf.calls("(*" + badgerPkg + ".DB).View") {
+			recv, _ := callArgs(c)
+			if strings.HasSuffix(pathOf(recv), ".trustedNodesDB") {
+				views = append(views, c)
+			}
+		}
+		early := 0
+		for _, ret := range returnsOf(tf.fn) {
+			vals, zero := resultVals(ret, 0)
+			if zero {
+				continue
+			}
+			allFalse := len(vals) > 0
+			for _, v := range vals {
+				if bv, isC := boolConst(v); !isC || bv {
+					allFalse = false
+				}
+			}
+			if allFalse {
+				continue
+			}
+			dominated := false
+			for _, vc := range views {
+				vi := vc.(ssa.Instruction)
+				if vi.Block() == ret.Block() || vi.Block().Dominates(ret.Block()) {
+					dominated = true
+				}
+			}
+			if !dominated {
+				early++
+			}
+		}
+		r.check(len(views) > 0 && early == 0, "validate-success-classes", "checkIsTrustedNode/answers-from-the-store", w.Pos(tf.fn.Pos()),
+			"a node is reported trusted only after the trusted-nodes store was read in this call", fmt.Sprintf("%d returns that may report 'trusted' are reachable without the store lookup (store lookups: %d)", early, len(views)))
+	}
 	r.check(trustedOK, "validate-success-classes", "validateLeaf/trusted-source", w.Pos(fn.Pos()), "the trusted flag is the result of checkIsTrustedNode(leaf.SignerPublicAddress)", "no such call")
 	classes := map[string]int{}
 	for _, ret := range returnsOf(fn) {
